@@ -673,6 +673,8 @@ class An:
                         if L is not None and L>=0: s.facts.append(('eq',f[1],TERM0))
             else:
                 _,what,symn,c=v
+                if (not truth) and symn is not None and what=='is_odd':
+                    s.even=getattr(s,'even',set())|{symn}
                 if (not truth) and symn is not None and what=='is_zero':
                     s.nonzero=set(getattr(s,'nonzero',()))|{symn}
                 if truth and symn is not None:
@@ -1005,6 +1007,8 @@ class An:
             v=IntV(absval(args[0].val) if isinstance(args[0].val,dict) else args[0].val,args[0].dim)
         elif re.search(r'Integer::is_even$',d) and args and isinstance(args[0],IntV):
             v=('test','is_even',self.single_sym(args[0].val) if isinstance(args[0].val,dict) else None,None)
+        elif re.search(r'Integer::is_odd$',d) and args and isinstance(args[0],IntV):
+            v=('test','is_odd',self.single_sym(args[0].val) if isinstance(args[0].val,dict) else None,None)
         elif tr in ('std::ops::AddAssign','std::ops::Add','std::ops::SubAssign','std::ops::Sub') and len(args)==2 and isinstance(args[0],IntV) and args[0].val=='lossy' and not isinstance(args[1],(IntV,Rec)):
             v=('int',0) if tr.endswith('Assign') else args[0]      # +/- a small unit in the last place of an already inexact integer
         elif tr in OPS and len(args)==2 and any(isinstance(x,IntV) for x in args[:2]) and all(isinstance(x,IntV) or (isinstance(x,tuple) and x and x[0]=='int') for x in args[:2]):
